@@ -63,7 +63,11 @@ def leads(work, which):
 def simulate(work, n, depth, seed):
     r = common.tlc(work, "MC_ClientSim", cfg="MC_ClientSim", workers=1, timeout=900,
                    extra=["-simulate", "num=%d" % n, "-depth", str(depth), "-seed", str(seed)])
+    if r["error"] is not None and not r["cases"]:
+        raise Infra("MC_ClientSim: TLC produced no behaviours\n" + r["out"][-2500:])
     cases = [json.loads(json.loads(c)[5:]) for c in r["cases"]]
+    if len(cases) < n // 10:
+        raise Infra("MC_ClientSim: only %d behaviours from %d simulations\n%s" % (len(cases), n, r["out"][-1500:]))
     # keep maximal behaviours only (a printed case may be a prefix of a later one)
     keys = sorted((json.dumps(c["steps"]) for c in cases), key=len, reverse=True)
     kept, seen = [], []
